@@ -372,6 +372,18 @@ impl Session {
         fcnt
     }
 
+    /// Queues the answer to a MAC command of the frame being handled, unless an earlier answer
+    /// of that frame was already dropped for lack of room.
+    fn queue_answer<M: lorawan::maccommands::SerializableMacCommand>(
+        &mut self,
+        answers_full: &mut bool,
+        cmd: M,
+    ) {
+        if !*answers_full && !self.uplink.add_mac_command(cmd) {
+            *answers_full = true;
+        }
+    }
+
     fn handle_downlink_macs(
         &mut self,
         configuration: &mut super::Configuration,
@@ -385,6 +397,9 @@ impl Session {
         // processes the leading well-formed prefix of the stream.
         let mut cmd_iter = cmds.filter_map(Result::ok).peekable();
         let mut num_adrreq = 0;
+        // set once an answer did not fit: from then on no answer is queued, so that only
+        // trailing answers are ever missing from the next uplink
+        let mut answers_full = false;
         // false once a command of the current LinkADRReq block carried an RFU ChMaskCntl
         let mut chmaskcntl_valid = true;
         while let Some(cmd) = cmd_iter.next() {
@@ -395,7 +410,7 @@ impl Session {
                     // For now we just return dummy value of "255"
                     let mut cmd = DevStatusAnsCreator::new();
                     let _ = cmd.set_battery(255).set_margin(snr);
-                    self.uplink.add_mac_command(cmd);
+                    self.queue_answer(&mut answers_full, cmd);
                 }
                 DlChannelReq(payload) => {
                     if region.has_fixed_channel_plan() {
@@ -407,7 +422,7 @@ impl Session {
 
                     let mut cmd = DlChannelAnsCreator::new();
                     cmd.set_channel_frequency_ack(ack_f).set_uplink_frequency_exists_ack(ack_c);
-                    self.uplink.add_mac_command(cmd);
+                    self.queue_answer(&mut answers_full, cmd);
                 }
                 LinkADRReq(payload) => {
                     // Contiguous LinkADRReq commands shall be processed in the
@@ -469,7 +484,7 @@ impl Session {
                         cmd.set_channel_mask_ack(cm_ack)
                             .set_data_rate_ack(dr.is_some())
                             .set_tx_power_ack(pw.is_some());
-                        self.uplink.add_mac_command(cmd);
+                        self.queue_answer(&mut answers_full, cmd);
                     }
                     num_adrreq = 0;
                     chmaskcntl_valid = true;
@@ -498,7 +513,7 @@ impl Session {
 
                     let mut cmd = NewChannelAnsCreator::new();
                     cmd.set_channel_frequency_ack(ack_f).set_data_rate_range_ack(ack_d);
-                    self.uplink.add_mac_command(cmd);
+                    self.queue_answer(&mut answers_full, cmd);
                 }
                 RXParamSetupReq(payload) => {
                     let freq = payload.frequency().value();
@@ -528,7 +543,7 @@ impl Session {
                         .set_rx2_data_rate_ack(rx2_dr.is_some())
                         .set_channel_ack(freq_ack);
 
-                    self.uplink.add_mac_command(cmd);
+                    self.queue_answer(&mut answers_full, cmd);
 
                     // TODO: An end-device that expects to receive Class C
                     // downlink frames will send an uplink frame as soon
@@ -537,7 +552,7 @@ impl Session {
                 }
                 RXTimingSetupReq(payload) => {
                     configuration.rx1_delay = super::del_to_delay_ms(payload.delay());
-                    self.uplink.add_mac_command(RXTimingSetupAnsCreator::new());
+                    self.queue_answer(&mut answers_full, RXTimingSetupAnsCreator::new());
                 }
                 _ => (),
             }
